@@ -176,7 +176,7 @@ func synthesizeAAAA(qname string, a *dns.A, prefix *net.IPNet, ttl uint32) *dns.
 // be a translated address, so refusing to extract avoids
 // returning a confusing CNAME for unrelated traffic.
 func extractIPv4(prefix *net.IPNet, addr net.IP) (net.IP, bool) {
-	if !prefix.Contains(addr) {
+	if !inPrefix(prefix, addr) {
 		return nil, false
 	}
 	bits, _ := prefix.Mask.Size()
@@ -233,6 +233,26 @@ func extractIPv4(prefix *net.IPNet, addr net.IP) (net.IP, bool) {
 		copy(out, a[12:16])
 	}
 	return out, true
+}
+
+// inPrefix reports whether addr lies inside prefix, comparing the
+// 16-byte forms. net.IPNet.Contains first collapses any address that
+// looks IPv4-mapped (ten zero bytes, then ff ff) to four bytes and then
+// rejects it against a 16-byte network, so under a Pref64 whose leading
+// bytes are zero a correctly embedded address (0.0.255.255 under ::/56
+// is ::ffff:0:0) was reported as outside its own prefix and the
+// ip6.arpa mapping was not the inverse of synthesis.
+func inPrefix(prefix *net.IPNet, addr net.IP) bool {
+	a, p := addr.To16(), prefix.IP.To16()
+	if a == nil || p == nil || len(prefix.Mask) != net.IPv6len {
+		return prefix.Contains(addr)
+	}
+	for i := range a {
+		if (a[i]^p[i])&prefix.Mask[i] != 0 {
+			return false
+		}
+	}
+	return true
 }
 
 func bytesAllZero(b []byte) bool {
